@@ -216,7 +216,19 @@ func TestC18(t *testing.T) {
 				payload, dataSrc = p, p
 			}
 			created := time.Unix(int64(cr.Intn(2_000_000_000)), int64(cr.Intn(1_000_000_000))).UTC()
-			ev := &eventlogger.Event{Type: eventlogger.EventType(evType), CreatedAt: created, Formatted: map[string][]byte{"other": []byte("untouched")}, Payload: payload}
+			// the format table the event arrives with: usually another format's value; sometimes none at all
+			// (nil table), sometimes an earlier value under the very key this formatter stores to
+			pre := map[string][]byte{"other": []byte("untouched")}
+			var stale []byte
+			switch cr.Intn(8) {
+			case 0:
+				pre = nil
+			case 1:
+				stale = []byte("{\"id\":\"earlier\",\"stale\":true}\n")
+				pre[storeKey] = stale
+			}
+			npre := len(pre)
+			ev := &eventlogger.Event{Type: eventlogger.EventType(evType), CreatedAt: created, Formatted: pre, Payload: payload}
 			run.Progress("C18 %s", c)
 			out, err := f.Process(ctx, ev)
 			stored, has := ev.Format(storeKey)
@@ -231,7 +243,7 @@ func TestC18(t *testing.T) {
 				if err == nil || out != nil {
 					bad("invalid-accepted", "an invalid configuration / empty ID() must be rejected with an error and nothing forwarded")
 				}
-				if len(ev.Formatted) != 1 {
+				if cur, _ := ev.Format(storeKey); len(ev.Formatted) != npre || !bytes.Equal(cur, stale) {
 					bad("invalid-stored", "a document was stored although the configuration is invalid")
 				}
 				continue
@@ -240,7 +252,7 @@ func TestC18(t *testing.T) {
 				if err == nil || out != nil {
 					bad("unsigned-forwarded", "the signer failed but the event was forwarded (unsigned)")
 				}
-				if has {
+				if has && (stale == nil || !bytes.Equal(stored, stale)) {
 					bad("unsigned-stored", "the signer failed but a document was stored")
 				}
 				continue
@@ -389,7 +401,7 @@ func TestC18(t *testing.T) {
 					}
 				}
 			}
-			if o, ok := ev.Format("other"); !ok || string(o) != "untouched" {
+			if o, ok := ev.Format("other"); pre != nil && (!ok || string(o) != "untouched") {
 				bad("format-table-altered", "another format's value was disturbed")
 			}
 			group = append(group, &ceKept{ev: ev, format: storeKey, stored: append([]byte(nil), stored...), desc: c.String()})
